@@ -292,7 +292,8 @@ func (c *updater) buildBackendAuthHTTP(d *backData) {
 		if authSecret.Value == "" {
 			continue
 		}
-		secretName := authSecret.Value
+		// secret://name and secret://namespace/name name the same secret as name and namespace/name
+		secretName := strings.TrimPrefix(authSecret.Value, "secret://")
 		if !strings.Contains(secretName, "/") {
 			secretName = authSecret.Source.Namespace + "/" + secretName
 		}
